@@ -35,4 +35,9 @@ def obligations(tier):
                           family="argon2-alloc-faults",
                           desc="argon2 hash/verify/needs_rehash under every allocation-fault schedule: error return, no output, no leak/double free/NULL deref; fault-free run succeeds",
                           bounds="fault schedule: one symbolic bit per allocation request (<= 12 requests); m=8 KiB, t=1, p=1; password 4 bytes, salt 8 bytes symbolic"))
+    obs.append(Ob("sodium-malloc-os-refuses", "C17/malloc.c", stubs=["rng.c", "misuse.c", "libc.c"], defs={"P": 64, "MODE": 2}, unwind=20, timeout=300, replay="model",
+                  family="guarded-malloc-failure",
+                  desc="mmap refused => sodium_malloc / sodium_allocarray return NULL with ENOMEM, nothing mapped, no protection call, no crash; sodium_free(NULL) is a no-op",
+                  bounds="page size 64, size symbolic 0..3P+1"))
+    # scrypt: scratch-region failure inside escrypt_kdf (both units) is decided by C08's scrypt-kdf-params obligations
     return obs
